@@ -27,6 +27,36 @@ pub mod smoke;
 pub fn dispatch(a: &ShardArgs) -> Result<(), String> {
     super::refcodec::link::self_test()?;
     super::refcodec::app::self_test()?;
+    let r = dispatch_inner(a);
+    // H6: what the event-buffer audit saw during this shard; failures not already attributed to a
+    // scenario (checks other than C03/C13) are recorded against the two properties the counters serve
+    let (audits, records, states) = super::probe::audit_stats();
+    if audits > 0 {
+        super::out::count("event_buffer_audits", audits);
+        super::out::count("event_buffer_audit_records_walked", records);
+        super::out::count("event_buffer_audit_distinct_states", states);
+        for (site, n) in super::probe::audit_sites() {
+            super::out::count(&format!("event_buffer_audits_at_{site}"), n);
+        }
+    }
+    for f in super::probe::take_audit_failures() {
+        for p in ["C03", "C13"] {
+            super::out::violation(
+                p,
+                &format!("{p}.audit.{}", f.rule),
+                f.site,
+                super::out::J::s(format!(
+                    "event buffer audit at {}: {}: {}",
+                    f.site, f.rule, f.detail
+                )),
+                super::out::J::Null,
+            );
+        }
+    }
+    r
+}
+
+fn dispatch_inner(a: &ShardArgs) -> Result<(), String> {
     match a.check.as_str() {
         "c01" => c01::run(a),
         "c02" => c02::run(a),
